@@ -209,5 +209,5 @@ func (w *World) describeStore(tag string, p int, s iface.Store) {
 	sort.Strings(ws)
 	a := s.Address()
 	root := w.rootName(a.GetRoot().String())
-	w.printf("%s %d root=%s path=%s type=%s write=%s\n", tag, p, root, hx([]byte(w.maskRoots(a.GetPath()))), s.Type(), joinOrDash(ws))
+	w.printf("%s %d root=%s path=%s type=%s write=%s str=%s\n", tag, p, root, hx([]byte(w.maskRoots(a.GetPath()))), s.Type(), joinOrDash(ws), hx([]byte(w.maskRoots(a.String()))))
 }
